@@ -33,6 +33,13 @@ UNITS['autogen_recursive'] = autogen_unit('recursive')
 for _l in ('dex', 'small', 'recursive_with_poseidon', 'starknet'):
     UNITS['autogen_' + _l] = autogen_unit(_l)
 
+# hash / stone variants of the core unit (thorough tier): the templates were written against keccak_160_lsb + stone5, the other
+# variants go through the transplant path (cfg resolution selects the other hash constructors / digest windows)
+CORE_FRAGS = UNITS['core']['fragments']
+for _h, _st in (('keccak_248_lsb', 'stone5'), ('blake2s_160_lsb', 'stone6'), ('blake2s_248_lsb', 'stone6'), ('keccak_160_lsb', 'stone6')):
+    UNITS['core_%s_%s' % (_h, _st)] = dict(fragments=CORE_FRAGS, features=feats('recursive', _h, _st), threads=8)
+VARIANTS = [u for u in UNITS if u.startswith('core_')]
+
 LIGHT_LAYOUTS = ('dex', 'dynamic', 'recursive_with_poseidon', 'small', 'starknet', 'starknet_with_keccak')
 for _l in LIGHT_LAYOUTS:
     UNITS['layout_' + _l] = dict(fragments=PRE + T('lemmas.rs', 'numth.rs', 'transcript.rs', 'pow.rs', 'commitment.rs', 'fri.rs', 'air.rs'),
@@ -104,7 +111,7 @@ PROPS['C08']['quick'] = ['core'] + _LIGHT
 PROPS['C08']['thorough'] = ['core'] + _LIGHT
 PROPS['C01']['thorough'] = ['core'] + _LIGHT
 PROPS['C02']['thorough'] = ['core'] + _LIGHT
-PROPS['C16'] = dict(quick=['core', 'autogen_recursive'], thorough=['core', 'autogen_recursive'],
+PROPS['C16'] = dict(quick=['core', 'autogen_recursive'], thorough=['core', 'autogen_recursive', 'autogen_dex', 'autogen_small', 'autogen_recursive_with_poseidon', 'autogen_starknet'],
     claim='For each layout covered, the UNCHANGED bodies of the autogenerated composition and DEEP evaluators type-check with the coefficient vector retyped to an abstract Coeff (usable only as one factor of a product with a field element) and the result retyped to a linear form, and the ghost contract proves every coefficient position 0..N-1 is used exactly once, in order, with no constant part; powers_array is proved to return alpha^i, and stark_commit to pass N_CONSTRAINTS resp. MASK_SIZE+DEGREE of them. Index obligations show the evaluators read exactly mask/oods positions within the checked lengths.',
     technique='typing + ghost-state contract (lo, hi, count, czero) on eval_composition_polynomial_inner / eval_oods_polynomial_inner extracted with two signature-level rewrites; functional postcondition on powers_array',
     note='Not decided: that each term is not identically zero (needs a witness evaluation per constraint). Divisions inside the evaluators are assumed non-zero (A-fs-nonzero). Layout coverage: see evidence units.')
@@ -116,6 +123,11 @@ PROPS['C18'] = dict(quick=['core'], thorough=['core'],
     claim='Every index, slice, unwrap/expect, assert!, panic!, integer overflow and zero-divisor site in the functions under contract is a discharged obligation; StarkProof::verify (generic layout) has no precondition beyond a 64-bit usize and a header count below usize::MAX. Interior functions require only what their callers are proved to establish.',
     technique='implicit panic-freedom obligations generated by Verus for every function under contract, interior preconditions discharged along the verified call chain',
     note='Division by the evaluation of a domain polynomial at a Fiat-Shamir point inside the autogenerated evaluators is assumed non-zero (A-fs-nonzero). Layout-specific functions: see evidence for coverage and known findings.')
+
+# thorough tier: every hash / stone variant of the core unit for the properties whose code is cfg-dependent
+for _p in ('C01', 'C02', 'C04', 'C05', 'C07', 'C09', 'C13', 'C17', 'C18'):
+    PROPS[_p]['thorough'] = list(dict.fromkeys(PROPS[_p]['thorough'] + VARIANTS))
+PROPS['C18']['thorough'] = list(dict.fromkeys(PROPS['C18']['thorough'] + _LIGHT + ['autogen_recursive', 'autogen_dex', 'autogen_small', 'autogen_recursive_with_poseidon', 'autogen_starknet']))
 
 NOT_APPLICABLE = {
     'C03': 'quantifies over outputs of an external prover (25 shipped Stone proofs) and over compile-time builds; only running each proof through each build decides it, which is a test matrix, not a contract (DESIGN.md C03)',
